@@ -9,4 +9,5 @@ CONSTANTS
  Shifts = {0, 5}
  SymOffs = {1, 2}
  MaxNames = 2
+ PoolSel = "base"
 CHECK_DEADLOCK FALSE
